@@ -110,6 +110,15 @@ def schedRecCmd (ws : List String) : String :=
     | _, _, _ => "bad-op"
   | _ => "bad-op"
 
+/-- `catcher-api G M R`: R rounds of G goroutines adding M errors each through the whole adding API (C10.catcher_retains) -/
+def catcherApiCmd (ws : List String) : String :=
+  match ws with
+  | [g, m, r] =>
+    match g.toNat?, m.toNat?, r.toNat? with
+    | some g, some m, some r => s!"retained={g * m * r} distinct={g * m * r}"
+    | _, _, _ => "bad-op"
+  | _ => "bad-op"
+
 /-- `sched-rec-overlap kind G M …`: increments issued while test cycles run are each in exactly one cycle
 (C16.counters_are_sums): the cycle totals add up to G·M -/
 def schedRecOverlapCmd (ws : List String) : String :=
